@@ -309,3 +309,249 @@ run_epoch_ns(int k, int y0, int y1, int only_rd, int only_sec, int only_ns)
 		}
 	}
 }
+
+/* ---- stdin legs beyond the grammar (audit round 2) ----
+ * SX1  %T or %F directly behind another specifier (2012030112:34:56 under %Y%m%d%T)
+ * SX2  %s followed by a literal, incl. negative 10- and 11-digit epochs (only a different value is judged)
+ * SX3  calendar names as -i with date-time lines (2012-02-29T04:38:54 under -i ymd)
+ * lines = the formatted text of the values, alone and as "foo <text> bar"; expected = what the library makes
+ * of the same text under the same format (= argument mode), printed with %FT%T; only texts the library
+ * accepts are judged. */
+static const struct {
+	const char *fmt;
+	int grp;	/* 1 %T/%F behind a specifier, 2 %s + literal, 3 calendar name */
+} sx_fmts[] = {
+	{"%Y%m%d%T", 1}, {"%d%T", 1}, {"%j%T", 1}, {"%Y%j%T", 1}, {"%m%d%T", 1}, {"%y%m%d%T", 1}, {"%a%T", 1}, {"%b%d%T", 1},
+	{"%a%F", 1}, {"%H%F", 1}, {"%H%M%F", 1}, {"%H%M%S%F", 1}, {"%A%F", 1}, {"%u%F", 1}, {"%j%F", 1}, {"%V%F", 1},
+	{"%Y%m%dT%T", 1}, {"%F%T", 1}, {"%T%F", 1},
+	{"%s,", 2}, {"%s UTC", 2}, {"%s;", 2}, {"%s.%N", 2}, {"%s %Z", 2}, {"%s-", 2}, {"%s/x", 2},
+	{"ymd", 3}, {"ywd", 3}, {"ymcw", 3}, {"bizda", 3}, {"yd", 3},
+};
+#define NSXFMT	((int)(sizeof(sx_fmts) / sizeof(*sx_fmts)))
+static const char *const sx_grp[] = {"", "%T or %F directly behind a specifier", "%s followed by a literal", "calendar name as input format, date-time line"};
+
+static void
+run_stdin_extra(int k, int only_v, int only_shape)
+{
+	EX_CTR(c_sb, "stdin_extra_formats");
+	EX_CTR(c_sbl, "stdin_extra_lines");
+	EX_CTR(c_sbj, "stdin_extra_lines_judged");
+	const char *rundir = getenv("VERIF_RUNDIR");
+	const char *fs = sx_fmts[k].fmt;
+	int grp = sx_fmts[k].grp;
+	static char texts[1500][64], exps[1500][40];
+	static int ok[1500];
+	char fin[600], fout[600], ferr[600], cmd[2600], key[320], cas[96], rej[256] = "", out[256], src[64];
+	FILE *fi, *fo, *fe;
+	int nv = 0, have_rej = 0;
+	static const int eyears[5] = {2000, 1900, 1601, 1640, 4090};
+
+	if (rundir == NULL || ex.tree == NULL) {
+		return;
+	}
+	++*c_sb;
+	{
+		char bt[32];
+		snprintf(bt, sizeof(bt), "%04d-01-01T00:00:00", W8[0].y0);
+		dt_set_base(dt_strpdt(bt, NULL, NULL));
+	}
+	for (int yi = 0; yi < (grp == 2 ? 5 : 1); yi++) {
+		for (int rd = rc_yearstart[eyears[yi]]; rd < rc_yearstart[eyears[yi] + 1] && nv < 1500; rd++) {
+			const struct rc_day *p = rc_get(rd);
+			struct dt_dt_s v, v2;
+			size_t n;
+			if (grp == 3 && !strcmp(fs, "bizda") && !p->isbd) {
+				continue;
+			}
+			snprintf(src, sizeof(src), "%04d-%02d-%02dT%s", p->y, p->m, p->d, grp == 2 ? "04:02:07" : grp == 3 ? "04:38:54" : "12:34:56");
+			v = dt_strpdt(src, NULL, NULL);
+			n = dt_strfdt(texts[nv], sizeof(texts[nv]) - 1, fs, v);
+			if (n == 0 || n >= sizeof(texts[nv]) - 1) {
+				continue;
+			}
+			texts[nv][n] = '\0';
+			v2 = dt_strpdt(texts[nv], fs, NULL);
+			ok[nv] = !dt_unk_p(v2);
+			exps[nv][0] = '\0';
+			if (ok[nv]) {
+				dt_strfdt(exps[nv], sizeof(exps[nv]), "%FT%T", v2);
+			}
+			nv++;
+		}
+	}
+	snprintf(fin, sizeof(fin), "%s/c09x.%d.in", rundir, k);
+	snprintf(fout, sizeof(fout), "%s/c09x.%d.out", rundir, k);
+	snprintf(ferr, sizeof(ferr), "%s/c09x.%d.err", rundir, k);
+	if ((fi = fopen(fin, "w")) == NULL) {
+		return;
+	}
+	for (int v = 0; v < nv; v++) {
+		fprintf(fi, "%s\nfoo %s bar\n", texts[v], texts[v]);
+	}
+	fclose(fi);
+	snprintf(cmd, sizeof(cmd), "LOCALE_FILE='%s/data/locale' '%s/src/dconv' --base %04d-01-01 -i '%s' -f '%%FT%%T' < '%s' > '%s' 2> '%s'", ex.tree, ex.tree,
+		 W8[0].y0, fs, fin, fout, ferr);
+	if (system(cmd) != 0) {
+		;
+	}
+	fo = fopen(fout, "r");
+	fe = fopen(ferr, "r");
+	if (fo == NULL || fe == NULL) {
+		return;
+	}
+#define SX_NEXT_REJ()	do { \
+		char l_[400]; \
+		have_rej = 0; \
+		while (fgets(l_, sizeof(l_), fe)) { \
+			char *a_ = strchr(l_, '`'), *b_ = strstr(l_, "' using the given input formats"); \
+			if (a_ && b_ && b_ > a_) { \
+				*b_ = '\0'; \
+				snprintf(rej, sizeof(rej), "%s", a_ + 1); \
+				have_rej = 1; \
+				break; \
+			} \
+		} \
+	} while (0)
+	SX_NEXT_REJ();
+	for (int v = 0; v < nv; v++) {
+		for (int shape = 0; shape < 2; shape++) {
+			char line[160];
+			int rejected = 0;
+			snprintf(line, sizeof(line), shape ? "foo %s bar" : "%s", texts[v]);
+			++*c_sbl;
+			if (have_rej && !strcmp(rej, line)) {
+				rejected = 1;
+				SX_NEXT_REJ();
+			} else {
+				out[0] = '\0';
+				if (fgets(out, sizeof(out), fo)) {
+					out[strcspn(out, "\n")] = '\0';
+				} else {
+					rejected = 2;
+				}
+			}
+			if (!ok[v] || (only_v >= 0 && (v != only_v || shape != only_shape))) {
+				continue;
+			}
+			if (grp == 2 && rejected) {
+				continue;	/* variable-width first field: a refusal is not judged */
+			}
+			++*c_sbj;
+			if (rejected || strcmp(out, exps[v])) {
+				snprintf(key, sizeof(key), "stdin-binding %s, format '%s' line=%s: %s", sx_grp[grp], fs, shape ? "embedded (foo <text> bar)" : "text alone",
+					 rejected == 1 ? "line is refused" : rejected == 2 ? "line is neither converted nor refused" : "line is converted to a different value");
+				snprintf(cas, sizeof(cas), "Y %d %d %d", k, v, shape);
+				snprintf(cmd, sizeof(cmd), "echo '%s' | dconv -i '%s' -f '%%FT%%T'", line, fs);
+				ex_viol(key, (double)v, cas, cmd, "format '%s': the line '%s' on stdin gives '%s'%s; the same text as an argument / at library level reads as %s", fs, line,
+					rejected ? "" : out, rejected == 1 ? " (cannot make sense of)" : rejected == 2 ? " (nothing)" : "", exps[v]);
+				if (replay_verbose) {
+					printf("  VIOLATION [%s] line '%s' gives '%s'%s, expected %s\n", key, line, rejected ? "" : out, rejected ? " (refused)" : "", exps[v]);
+					replay_fails++;
+				}
+			} else if (replay_verbose) {
+				printf("  line '%s' gives '%s'\n", line, out);
+			}
+		}
+	}
+	fclose(fo);
+	fclose(fe);
+	unlink(fin);
+	unlink(fout);
+	unlink(ferr);
+}
+
+/* ---- dates held as bizda "before ultimo" (NNB): every way of printing them must name the same day ---- */
+static void
+run_bizda_before(int y0, int y1, int only_rd, int only_f)
+{
+	EX_CTR(c_trans, "transitions");
+	EX_CTR(c_eval, "evaluations");
+	EX_CTR(c_bb, "bizda_before_ultimo_cases");
+	static const char *const fm[] = {NULL, "%F", "ymd", "ywd", "%Y-%m-%d %a", "bizda", "%Y-%m-%dB"};
+	char src[32], text[96], got[64], key[200], cas[64], cmd[200];
+
+	for (int rd = rc_yearstart[y0]; rd < rc_yearstart[y1 + 1]; rd++) {
+		const struct rc_day *p = rc_get(rd);
+		int total = 0;
+		struct dt_dt_s v;
+		if (!p->isbd || (only_rd >= 0 && rd != only_rd)) {
+			continue;
+		}
+		/* business days of the month behind this one */
+		for (int q = rd + 1; q < RC_NDAYS && rc_get(q)->m == p->m; q++) {
+			total += rc_get(q)->isbd;
+		}
+		snprintf(src, sizeof(src), "%04d-%02d-%02dB", p->y, p->m, total);
+		{
+			int g0;
+			memset(&v, 0, sizeof(v));
+			EX_GUARD_BEGIN(g0) {
+				v = dt_strpdt(src, NULL, NULL);
+			} EX_GUARD_END;
+			(void)g0;
+		}
+		if (dt_unk_p(v)) {
+			continue;	/* the spelling is refused: the default-output leg of bizda reports that */
+		}
+		for (int f = 0; f < 7; f++) {
+			struct dt_dt_s v2, c;
+			const char *volatile why = NULL;
+			volatile size_t n;
+			if (only_rd >= 0 && f != only_f) {
+				continue;
+			}
+			int grc;
+			n = 0;
+			EX_GUARD_BEGIN(grc) {
+				n = dt_strfdt(text, sizeof(text), fm[f], v);
+			} EX_GUARD_END;
+			*c_eval += 3;
+			++*c_trans;
+			++*c_bb;
+			if (grc) {
+				snprintf(key, sizeof(key), "date held as bizda before ultimo (NNB) printed with %s: the formatter aborts", fm[f] ? fm[f] : "the default format");
+				snprintf(cas, sizeof(cas), "Q %d %d", rd, f);
+				snprintf(cmd, sizeof(cmd), "dconv %s%s%s%s", src, fm[f] ? " -f '" : "", fm[f] ? fm[f] : "", fm[f] ? "'" : "");
+				ex_viol(key, (double)rd, cas, cmd, "%s (= %04d-%02d-%02d, %d business days before the month's last one): abort() (assertion in lib/bizda.c)", src, p->y, p->m,
+					p->d, total);
+				if (replay_verbose) {
+					printf("  VIOLATION [%s] %s\n", key, src);
+					replay_fails++;
+				}
+				continue;
+			}
+			if (n == 0 || n >= sizeof(text)) {
+				continue;
+			}
+			got[0] = '\0';
+			EX_GUARD_BEGIN(grc) {
+				v2 = dt_strpdt(text, f == 4 || f == 6 ? fm[f] : NULL, NULL);
+				if (dt_unk_p(v2)) {
+					why = "the printed text is rejected";
+				} else {
+					c = dt_dtconv((dt_dttyp_t)DT_DAISY, v2);
+					dt_strfdt(got, sizeof(got), "%F", dt_dtconv((dt_dttyp_t)DT_YMD, v2));
+					if ((int)c.d.daisy != p->rd + 1) {
+						why = "the printed text names a different day";
+					}
+				}
+			} EX_GUARD_END;
+			if (grc) {
+				why = "reading the printed text back aborts (assertion in lib/bizda.c)";
+			}
+			if (why) {
+				snprintf(key, sizeof(key), "date held as bizda before ultimo (NNB) printed with %s: %s", fm[f] ? fm[f] : "the default format", why);
+				snprintf(cas, sizeof(cas), "Q %d %d", rd, f);
+				snprintf(cmd, sizeof(cmd), "dconv %s%s%s%s", src, fm[f] ? " -f '" : "", fm[f] ? fm[f] : "", fm[f] ? "'" : "");
+				ex_viol(key, (double)rd, cas, cmd, "%s (= %04d-%02d-%02d, %d business days before the month's last one) prints as '%s'; %s%s%s", src, p->y, p->m, p->d,
+					total, text, why, got[0] ? ": " : "", got);
+				if (replay_verbose) {
+					printf("  VIOLATION [%s] %s prints as '%s'; %s %s\n", key, src, text, why, got);
+					replay_fails++;
+				}
+			} else if (replay_verbose) {
+				printf("  %s prints as '%s' and reads back as %s\n", src, text, got);
+			}
+		}
+	}
+}
